@@ -84,6 +84,14 @@ theorem mh_never_bad (o : Oracle S F) (x y : S) (lnu : F) (hx : ¬ L.Bad (o.logp
   · rw [mh_reject_bad o x y lnu h]; exact hx
   · rcases mh_step_mem o x y lnu with e | e <;> rw [e] <;> assumption
 
+/-- **"nor to a position with non-finite coordinates"** for MH: if the target assigns a NaN / −inf density to every state
+    outside a set `Good`, a step started in `Good` ends in `Good` — for every acceptance draw, `u = 0` included. -/
+theorem mh_good_state (o : Oracle S F) (x y : S) (lnu : F) (Good : S → Prop) (hgood : ∀ s, ¬ Good s → L.Bad (o.logp s))
+    (hx : Good x) : Good (mhStep o x y lnu) := by
+  by_cases h : Good y
+  · rcases mh_step_mem o x y lnu with e | e <;> rw [e] <;> assumption
+  · rw [mh_reject_bad o x y lnu (hgood y h)]; exact hx
+
 end special
 
 /-! ### non-vacuity of the special-value theorems on `XR` -/
